@@ -3,6 +3,7 @@ package ctl
 import (
 	"context"
 	"fmt"
+	"runtime/debug"
 	"sort"
 	"strconv"
 	"sync"
@@ -388,6 +389,8 @@ func docOf(r *bluge.Reader, num uint64) Doc {
 
 // Observe reads everything a reader exposes, through the public API only.
 func Observe(r *bluge.Reader, ids []string, deep bool) (o Obs) {
+	// a read of a prematurely unmapped file must become a result, not the end of the driver
+	defer debug.SetPanicOnFault(debug.SetPanicOnFault(true))
 	defer func() {
 		if p := recover(); p != nil {
 			o.Err = fmt.Sprintf("panic: %v", p)
